@@ -101,6 +101,25 @@ impl TopicAliasRecv {
         self.aliases.clear();
     }
 
+    /// Canonical digest: max, alias->topic sorted by alias (verification hook, read-only).
+    #[cfg(feature = "verif-hooks")]
+    pub fn verif_dump(&self) -> String {
+        use core::fmt::Write;
+        let mut v: alloc::vec::Vec<(&TopicAliasType, &String)> = self.aliases.iter().collect();
+        v.sort();
+        let mut s = String::new();
+        let _ = write!(s, "{}:", self.max_alias);
+        let mut first = true;
+        for (a, t) in v {
+            let _ = write!(s, "{}{}=", if first { "" } else { "," }, a);
+            for b in t.as_bytes() {
+                let _ = write!(s, "{b:02x}");
+            }
+            first = false;
+        }
+        s
+    }
+
     /// Get the maximum alias value
     pub fn max(&self) -> TopicAliasType {
         self.max_alias
